@@ -105,6 +105,18 @@ def local_value(fi, name, use_stmt=None):
         if enc is not None:
             st, val = enc
             return _dominating_value(fi, st, val, use_stmt)
+        # ``name = V`` / ``if not isinstance(name, bytes): name = name.encode(cs, ..)``: after the test the local holds the encoded
+        # form of V (V itself when it is bytes already), before it V
+        own = _self_encoded(fi, name, [stmt_of(fi.mod, x) for x in stores])
+        if own is not None:
+            first, test, second, val = own
+            if use_stmt is None:
+                return val
+            if use_stmt is test or use_stmt is second:
+                return _dominating_value(fi, first, first.value, use_stmt)
+            if use_stmt is first or _dominating_value(fi, first, first.value, test) is None:
+                return None
+            return _dominating_value(fi, test, val, use_stmt)
     if len(stores) != 1 or not isinstance(stores[0], ast.Name):
         return None
     st = stmt_of(fi.mod, stores[0])
@@ -147,6 +159,58 @@ def _encoded_arms(fi, stmts, value_of):
             isinstance(ev.func.value, ast.Name) and ev.func.value.id == x):
         return None
     return pa, ev
+
+
+def _bytes_test(t):
+    """(x, negated) for the test ``isinstance(x, bytes)`` / ``not isinstance(x, bytes)`` on a name x; None otherwise."""
+    neg = False
+    if isinstance(t, ast.UnaryOp) and isinstance(t.op, ast.Not):
+        t, neg = t.operand, True
+    if isinstance(t, ast.Call) and isinstance(t.func, ast.Name) and t.func.id == 'isinstance' and len(t.args) == 2 and not t.keywords and \
+            isinstance(t.args[0], ast.Name) and norm(t.args[1]) == 'bytes':
+        return t.args[0].id, neg
+    return None
+
+
+def _self_encoded(fi, name, stmts):
+    """The two bindings of a local that is encoded in place: ``name = V`` followed, in the same statement list, by
+    ``if not isinstance(name, bytes): name = name.encode(cs, ..)`` (that statement alone in its arm, nothing in the other arm; the
+    arguments of encode read nothing the function re-binds) -> (first binding, the if statement, second binding, the expression
+    ``V.encode(cs, ..)`` that stands for what the local holds after the if statement); None otherwise.  The expression is built
+    from the nodes of the tree; ``_vt_stmt`` names the statement its text part is evaluated in."""
+    if len(stmts) != 2:
+        return None
+    plain = lambda s: isinstance(s, ast.Assign) and len(s.targets) == 1 and isinstance(s.targets[0], ast.Name) and s.targets[0].id == name
+    first, second = stmts
+    if not (plain(first) and plain(second)):
+        return None
+    e = second.value
+    if not (isinstance(e, ast.Call) and isinstance(e.func, ast.Attribute) and e.func.attr == 'encode' and isinstance(e.func.value, ast.Name) and
+            e.func.value.id == name and strip_encode(e) is e.func.value):
+        return None
+    test = fi.mod.parents.get(second)
+    if not isinstance(test, ast.If):
+        return None
+    bt = _bytes_test(test.test)
+    if bt is None or bt[0] != name:
+        return None
+    idle = lambda arm: all(isinstance(s, ast.Pass) for s in arm)
+    if not ((bt[1] and test.body == [second] and idle(test.orelse)) or (not bt[1] and test.orelse == [second] and idle(test.body))):
+        return None
+    holder = fi.mod.parents.get(first)
+    block = [b for b in (getattr(holder, f, None) for f in ('body', 'orelse', 'finalbody')) if isinstance(b, list) and first in b]
+    if holder is not fi.mod.parents.get(test) or not block or test not in block[0] or block[0].index(first) > block[0].index(test):
+        return None
+    for a in list(e.args) + [k.value for k in e.keywords]:
+        for n in ast.walk(a):
+            if isinstance(n, ast.Name) and _name_stores(fi, n.id):
+                return None
+    if any(isinstance(n, ast.Name) and n.id == name for n in ast.walk(first.value)):
+        return None
+    val = ast.copy_location(ast.Call(func=ast.copy_location(ast.Attribute(value=first.value, attr='encode', ctx=ast.Load()), e.func),
+                                     args=list(e.args), keywords=list(e.keywords)), e)
+    val._vt_stmt = first
+    return first, test, second, val
 
 
 def _dominating_value(fi, st, val, use_stmt):
@@ -195,7 +259,7 @@ def expand_expr(fi, expr, use_stmt=None, depth=0, keep=()):
             if isinstance(node.ctx, ast.Load) and node.id not in shadowed:
                 v = local_value(fi, node.id, use_stmt)
                 if v is not None:
-                    return ast.copy_location(expand_expr(fi, v, _use_stmt(fi, v), depth + 1, keep), node)
+                    return ast.copy_location(expand_expr(fi, v, getattr(v, '_vt_stmt', None) or _use_stmt(fi, v), depth + 1, keep), node)
             return node
     return X().visit(copy.deepcopy(expr))
 
@@ -1005,6 +1069,27 @@ def _is_table(e):
     return isinstance(e, ast.Name) and e.id == TABLE
 
 
+_NOTHING = object()
+
+
+def _is_marker_object(repo, mod, name):
+    """``name`` resolves (through imports) to a module-level name of the analysed tree that is bound exactly once, to a fresh
+    ``object()``, and that no function re-binds (``global``): a value equal / identical to nothing but itself."""
+    kind, m, vals = repo.resolve(mod, name)
+    if kind != 'value' or m is None or m.external or not isinstance(vals, list) or len(vals) != 1:
+        return False
+    v = vals[0]
+    if not (isinstance(v, ast.Call) and isinstance(v.func, ast.Name) and v.func.id == 'object' and not v.args and not v.keywords):
+        return False
+    if 'object' in m.assigns or 'object' in m.imports or 'object' in m.functions or 'object' in m.classes:
+        return False
+    owner = [n for n, vs in m.assigns.items() if any(x is v for x in vs)]
+    for n in ast.walk(m.tree):
+        if isinstance(n, (ast.Global, ast.Nonlocal)) and set(n.names) & set(owner):
+            return False
+    return True
+
+
 def check_adapt(rep, repo, err, base, msm, ad=None):
     """``ad``: the adapt() to analyse -- the base class' or an override in a class of the family."""
     ad = base.methods['adapt'] if ad is None else ad
@@ -1087,7 +1172,44 @@ def check_adapt(rep, repo, err, base, msm, ad=None):
             return False
         if kind == 'get':
             return implies_absent(conds(ad, st), fv)
+        if kind == 'get-default':
+            cs = conds(ad, st)
+            return has_cond(cs, missing, True) or has_cond(cs, found, False) or \
+                (falsy_default and has_cond(cs, lambda t: isinstance(t, ast.Name) and t.id == fv, False))
         return False
+    # ``TABLE.get(key, D)`` with D a value no entry of the table can be: a private marker object of the module (told by identity or
+    # equality) or a constant that is not a format of the table (told by equality; by truth when it is falsy and no format is)
+    marker, absent_const, falsy_default = None, _NOTHING, False
+    if kind == 'get-default':
+        dflt = lookup_value.args[1]
+        if isinstance(dflt, ast.Name) and dflt.id not in _param_names(ad) and not _name_stores(ad, dflt.id) and _is_marker_object(repo, ad.mod, dflt.id):
+            marker = dflt.id
+        elif not (isinstance(dflt, ast.Name) and (dflt.id in _param_names(ad) or _name_stores(ad, dflt.id))):
+            c = repo.try_fold(dflt, ad.mod, _NOTHING)
+            if c is not _NOTHING and isinstance(c, (str, bool, int, type(None))) and not any(c == v_ for v_ in msm.values()):
+                absent_const = c
+                falsy_default = not c and all(msm.values())
+
+    def default_test(t, want_eq):
+        if not (isinstance(t, ast.Compare) and len(t.ops) == 1):
+            return False
+        op = t.ops[0]
+        a, b = t.left, t.comparators[0]
+        if isinstance(b, ast.Name) and b.id == fv:
+            a, b = b, a
+        if not (isinstance(a, ast.Name) and a.id == fv):
+            return False
+        if marker is not None and isinstance(b, ast.Name) and b.id == marker:
+            return isinstance(op, (ast.Is, ast.Eq) if want_eq else (ast.IsNot, ast.NotEq))
+        if absent_const is not _NOTHING and not (isinstance(b, ast.Name) and (b.id in _param_names(ad) or _name_stores(ad, b.id))):
+            same = repo.try_fold(b, ad.mod, _NOTHING)
+            if same is not _NOTHING and type(same) is type(absent_const) and same == absent_const:
+                ops = (ast.Eq,) + ((ast.Is,) if absent_const is None else ())
+                nops = (ast.NotEq,) + ((ast.IsNot,) if absent_const is None else ())
+                return isinstance(op, ops if want_eq else nops)
+        return False
+    missing = lambda t: default_test(t, True)
+    found = lambda t: default_test(t, False)
     shape = len(reb[fv]) == 1 and len(reb[mp]) == 1 and reb[fv][0][1] is not None and reb[mp][0][1] is not None
     pair = (repo.try_fold(reb[fv][0][1], err), repo.try_fold(reb[mp][0][1], err)) if shape else None
     fb_ok = shape and isinstance(pair[0], str) and isinstance(pair[1], str) and msm.get(pair[1]) == pair[0] and pair[0] == 'text' and \
@@ -1412,7 +1534,7 @@ def value_origin(fi, node):
         v = local_value(fi, node.id, st)
         if v is None:
             break
-        node, st = v, _use_stmt(fi, v)
+        node, st = v, getattr(v, '_vt_stmt', None) or _use_stmt(fi, v)
     return node, st
 
 
